@@ -383,3 +383,29 @@ Proof.
   intros Hw Hq Hm Hd H. dg2 H.
   constructor; rewrite ?Hw, ?Hq; intros; [apply Hm|apply Hd]; eauto.
 Qed.
+
+Ltac inv_some H := inversion H; subst; clear H.
+
+Lemma inv_kernel s l s' :
+  (l = LKNotify \/ l = LKOther \/ l = LKTerm) -> Inv s -> step s l = Some s' -> Inv s'.
+Proof.
+  intros Hl [H1 H2 H3] Hs.
+  assert (Hshape : exists cq' ka', s' = s_d (d_cq cq' (d_karmed ka' (d s))) s /\
+            (uring (c s) = true -> karmed (d s) = true \/ In CFinal (cq (d s)) ->
+             ka' = true \/ In CFinal cq')).
+  { dst s. unfold step, step_v in Hs. red_all.
+    destruct Hl as [->|[->| ->]].
+    - destruct (ur && ka && Nat.ltb 0 ef); [|discriminate]. inv_some Hs.
+      exists (cq0 ++ [CNotify]), ka. split; [reflexivity|]. intros _ [H|H]; auto using in_app_l.
+    - inv_some Hs. exists (cq0 ++ [COther]), ka. split; [reflexivity|].
+      intros _ [H|H]; auto using in_app_l.
+    - destruct (ur && ka); [|discriminate]. inv_some Hs.
+      exists (cq0 ++ [CFinal]), false. split; [reflexivity|]. intros _ _. right.
+      apply in_or_app. right. left. reflexivity. }
+  destruct Hshape as (cq' & ka' & -> & Harm).
+  constructor.
+  - dg1 H1. dst s. red_all. constructor; red_all; auto.
+    intros Hu. specialize (I_arm Hu). specialize (Harm Hu). tauto.
+  - apply (g2_frame s); [reflexivity|reflexivity| | |exact H2]; intros H; dst s; exact H.
+  - apply (g3_frame s); [reflexivity|reflexivity|reflexivity|reflexivity|exact H3].
+Qed.
